@@ -1,4 +1,455 @@
-/- C20 — model and specification (stub; see HACKING.md) -/
+/-
+  C20 — the quaternion fit returns the optimal proper rotation and places fragments.
+
+  Model of shelxfile/fit/quatfit.py (generic in the number type `K`; driver: `Float`, theorems: `ℝ`, witnesses: `Rat`):
+    qtrfit (the nine correlation sums and the ten entries of the 4×4 form)  -> `corrStep`, `corr`, `qformOf`, `qform`
+    jacobi                                                                  -> `jacobiRot`, `rotIf`, `sweep`, `jacobiLoop`, `sortEig`, `jacobi`
+    q2mat                                                                   -> `q2mat`
+    transpose                                                               -> `transpose`
+    rotmol                                                                  -> `rotPoint`, `rotmol`
+    qtrfit (whole)                                                          -> `qtrfit`
+    centroid                                                                -> `centroid`
+    matrix_minus_vect / matrix_plus_vect                                    -> `minusVect`, `plusVect`
+    rmsd                                                                    -> `ssd`, `rmsd`
+    fit_fragment (the repaired code, fixes/C20_1_*, C20_2_*)                -> `fitFragment`
+    fit_fragment (as found in the snapshot; kept for the witness theorems)  -> `fitFragmentOld`
+  Specification (code independent): `ssdDirect` (Σ‖R xᵢ − yᵢ‖² for an arbitrary 3×3 matrix applied the ordinary
+  way), `IsProper` (RᵀR = 1, RRᵀ = 1, det R = 1), `quad` (qᵀNq), `sumSq`, `pivots` (LDLᵀ pivots of μ·1 − N: all positive
+  iff μ is above every eigenvalue — Sylvester), `placeSpec` (R(p − p̄) + t̄).
+
+  Conventions found in the code (they matter for Horn's identity):
+    * `q2mat(q)[r][c]` is the TRANSPOSE of the textbook rotation matrix of `q`;
+    * `qtrfit` returns `transpose(q2mat(q))`;
+    * `rotmol(x, U)` computes `y_c = Σ_r U[r][c]·x_r`, i.e. applies `Uᵀ`;
+    so `rotmol(x, qtrfit(..)[1])` applies `q2mat(q)` as an ordinary (left) matrix: `y = q2mat(q)·x`;
+    * the off-diagonal first row of the 4×4 form has the opposite sign of Horn's N (it is the form of the conjugate
+      quaternion), which matches the transposed `q2mat`.
+-/
 namespace Shelx.C20
+
+structure P3 (K : Type) where
+  x : K
+  y : K
+  z : K
+deriving Repr, BEq, DecidableEq
+
+structure Q4 (K : Type) where
+  q0 : K
+  q1 : K
+  q2 : K
+  q3 : K
+deriving Repr
+
+/-- 3×3 matrix, `mRC` = `m[R][C]` of the Python nested list -/
+structure M3 (K : Type) where
+  m00 : K
+  m01 : K
+  m02 : K
+  m10 : K
+  m11 : K
+  m12 : K
+  m20 : K
+  m21 : K
+  m22 : K
+deriving Repr
+
+/-- upper triangle (with diagonal) of the symmetric 4×4 matrix `matrix` of `qtrfit` -/
+structure S4 (K : Type) where
+  n00 : K
+  n01 : K
+  n02 : K
+  n03 : K
+  n11 : K
+  n12 : K
+  n13 : K
+  n22 : K
+  n23 : K
+  n33 : K
+deriving Repr
+
+/-- the nine running sums `xxyx … xzyz` of `qtrfit` -/
+structure Acc9 (K : Type) where
+  xxyx : K
+  xxyy : K
+  xxyz : K
+  xyyx : K
+  xyyy : K
+  xyyz : K
+  xzyx : K
+  xzyy : K
+  xzyz : K
+deriving Repr
+
+section ring
+variable {K : Type} [Add K] [Sub K] [Mul K] [OfNat K 0] [OfNat K 2]
+
+/-! ### Model: algebraic kernels -/
+
+/-- one pass of the loop `for i, _ in enumerate(source_xyz)` (quatfit.py:242-251); `p = (source[i], target[i])` -/
+def corrStep (a : Acc9 K) (p : P3 K × P3 K) : Acc9 K :=
+  { xxyx := a.xxyx + p.1.x * p.2.x
+    xxyy := a.xxyy + p.1.x * p.2.y
+    xxyz := a.xxyz + p.1.x * p.2.z
+    xyyx := a.xyyx + p.1.y * p.2.x
+    xyyy := a.xyyy + p.1.y * p.2.y
+    xyyz := a.xyyz + p.1.y * p.2.z
+    xzyx := a.xzyx + p.1.z * p.2.x
+    xzyy := a.xzyy + p.1.z * p.2.y
+    xzyz := a.xzyz + p.1.z * p.2.z }
+
+def acc0 : Acc9 K := ⟨0, 0, 0, 0, 0, 0, 0, 0, 0⟩
+
+def corr (l : List (P3 K × P3 K)) : Acc9 K := l.foldl corrStep acc0
+
+/-- the ten assignments `matrix[0][0] = … matrix[3][3] = …` (quatfit.py:253-262) -/
+def qformOf (a : Acc9 K) : S4 K :=
+  { n00 := a.xxyx + a.xyyy + a.xzyz
+    n01 := a.xzyy - a.xyyz
+    n11 := a.xxyx - a.xyyy - a.xzyz
+    n02 := a.xxyz - a.xzyx
+    n12 := a.xxyy + a.xyyx
+    n22 := a.xyyy - a.xzyz - a.xxyx
+    n03 := a.xyyx - a.xxyy
+    n13 := a.xzyx + a.xxyz
+    n23 := a.xyyz + a.xzyy
+    n33 := a.xzyz - a.xxyx - a.xyyy }
+
+/-- the quadratic form of `qtrfit` for index-paired points -/
+def qformPairs (l : List (P3 K × P3 K)) : S4 K := qformOf (corr l)
+
+/-- `qtrfit`'s matrix; `none` is the IndexError of `target_xyz[i]` when the target list is shorter -/
+def qform (src tgt : List (P3 K)) : Option (S4 K) :=
+  if src.length ≤ tgt.length then some (qformPairs (src.zip tgt)) else none
+
+/-- `q2mat` (quatfit.py:168-179), entry by entry -/
+def q2mat (q : Q4 K) : M3 K :=
+  { m00 := q.q0 * q.q0 + q.q1 * q.q1 - q.q2 * q.q2 - q.q3 * q.q3
+    m10 := 2 * (q.q1 * q.q2 - q.q0 * q.q3)
+    m20 := 2 * (q.q1 * q.q3 + q.q0 * q.q2)
+    m01 := 2 * (q.q2 * q.q1 + q.q0 * q.q3)
+    m11 := q.q0 * q.q0 - q.q1 * q.q1 + q.q2 * q.q2 - q.q3 * q.q3
+    m21 := 2 * (q.q2 * q.q3 - q.q0 * q.q1)
+    m02 := 2 * (q.q3 * q.q1 - q.q0 * q.q2)
+    m12 := 2 * (q.q3 * q.q2 + q.q0 * q.q1)
+    m22 := q.q0 * q.q0 - q.q1 * q.q1 - q.q2 * q.q2 + q.q3 * q.q3 }
+
+/-- `transpose` = `list(zip(*a))` on a 3×3 list -/
+def transpose (u : M3 K) : M3 K :=
+  { m00 := u.m00, m01 := u.m10, m02 := u.m20
+    m10 := u.m01, m11 := u.m11, m12 := u.m21
+    m20 := u.m02, m21 := u.m12, m22 := u.m22 }
+
+/-- body of `rotmol`'s loop: `y_c = rotmat[0][c]·x + rotmat[1][c]·y + rotmat[2][c]·z` (applies the transpose) -/
+def rotPoint (u : M3 K) (p : P3 K) : P3 K :=
+  { x := u.m00 * p.x + u.m10 * p.y + u.m20 * p.z
+    y := u.m01 * p.x + u.m11 * p.y + u.m21 * p.z
+    z := u.m02 * p.x + u.m12 * p.y + u.m22 * p.z }
+
+def rotmol (pts : List (P3 K)) (u : M3 K) : List (P3 K) := pts.map (rotPoint u)
+
+def minusVect (pts : List (P3 K)) (v : P3 K) : List (P3 K) := pts.map fun p => ⟨p.x - v.x, p.y - v.y, p.z - v.z⟩
+def plusVect (pts : List (P3 K)) (v : P3 K) : List (P3 K) := pts.map fun p => ⟨p.x + v.x, p.y + v.y, p.z + v.z⟩
+
+/-- one pass of `rmsd`'s loop: `rmsd += sum([(v[i] - w[i]) ** 2.0 for i in range(3)])` (`sum` starts at 0) -/
+def ssdStep (acc : K) (p : P3 K × P3 K) : K :=
+  acc + (0 + (p.1.x - p.2.x) * (p.1.x - p.2.x) + (p.1.y - p.2.y) * (p.1.y - p.2.y) + (p.1.z - p.2.z) * (p.1.z - p.2.z))
+
+/-- the sum of squared deviations accumulated by `rmsd` over `zip(vect1, vect2)` -/
+def ssd (l : List (P3 K × P3 K)) : K := l.foldl ssdStep 0
+
+/-! ### Specification side (code independent) -/
+
+/-- an ordinary matrix–vector product `R·p` -/
+def mulVec (r : M3 K) (p : P3 K) : P3 K :=
+  { x := r.m00 * p.x + r.m01 * p.y + r.m02 * p.z
+    y := r.m10 * p.x + r.m11 * p.y + r.m12 * p.z
+    z := r.m20 * p.x + r.m21 * p.y + r.m22 * p.z }
+
+def dist2 (a b : P3 K) : K := (a.x - b.x) * (a.x - b.x) + (a.y - b.y) * (a.y - b.y) + (a.z - b.z) * (a.z - b.z)
+
+/-- Σᵢ ‖R·xᵢ − yᵢ‖² -/
+def ssdDirect (r : M3 K) : List (P3 K × P3 K) → K
+  | [] => 0
+  | p :: t => dist2 (mulVec r p.1) p.2 + ssdDirect r t
+
+def norm2 (a : P3 K) : K := a.x * a.x + a.y * a.y + a.z * a.z
+
+def sumSq : List (P3 K) → K
+  | [] => 0
+  | p :: t => norm2 p + sumSq t
+
+def qnorm2 (q : Q4 K) : K := q.q0 * q.q0 + q.q1 * q.q1 + q.q2 * q.q2 + q.q3 * q.q3
+
+/-- `N·q` for the symmetric matrix whose upper triangle is `n` -/
+def mulQ (n : S4 K) (q : Q4 K) : Q4 K :=
+  { q0 := n.n00 * q.q0 + n.n01 * q.q1 + n.n02 * q.q2 + n.n03 * q.q3
+    q1 := n.n01 * q.q0 + n.n11 * q.q1 + n.n12 * q.q2 + n.n13 * q.q3
+    q2 := n.n02 * q.q0 + n.n12 * q.q1 + n.n22 * q.q2 + n.n23 * q.q3
+    q3 := n.n03 * q.q0 + n.n13 * q.q1 + n.n23 * q.q2 + n.n33 * q.q3 }
+
+def dotQ (a b : Q4 K) : K := a.q0 * b.q0 + a.q1 * b.q1 + a.q2 * b.q2 + a.q3 * b.q3
+
+/-- `qᵀ N q` -/
+def quad (n : S4 K) (q : Q4 K) : K := dotQ q (mulQ n q)
+
+def det3 (r : M3 K) : K :=
+  r.m00 * (r.m11 * r.m22 - r.m12 * r.m21) - r.m01 * (r.m10 * r.m22 - r.m12 * r.m20) + r.m02 * (r.m10 * r.m21 - r.m11 * r.m20)
+
+/-- `AᵀB` -/
+def mulT (a b : M3 K) : M3 K :=
+  { m00 := a.m00 * b.m00 + a.m10 * b.m10 + a.m20 * b.m20
+    m01 := a.m00 * b.m01 + a.m10 * b.m11 + a.m20 * b.m21
+    m02 := a.m00 * b.m02 + a.m10 * b.m12 + a.m20 * b.m22
+    m10 := a.m01 * b.m00 + a.m11 * b.m10 + a.m21 * b.m20
+    m11 := a.m01 * b.m01 + a.m11 * b.m11 + a.m21 * b.m21
+    m12 := a.m01 * b.m02 + a.m11 * b.m12 + a.m21 * b.m22
+    m20 := a.m02 * b.m00 + a.m12 * b.m10 + a.m22 * b.m20
+    m21 := a.m02 * b.m01 + a.m12 * b.m11 + a.m22 * b.m21
+    m22 := a.m02 * b.m02 + a.m12 * b.m12 + a.m22 * b.m22 }
+
+end ring
+
+def M3.one {K : Type} [OfNat K 0] [OfNat K 1] : M3 K := ⟨1, 0, 0, 0, 1, 0, 0, 0, 1⟩
+
+/-- proper rotation: columns orthonormal, rows orthonormal, determinant +1 -/
+def IsProper {K : Type} [Add K] [Sub K] [Mul K] [OfNat K 0] [OfNat K 1] [OfNat K 2] (r : M3 K) : Prop :=
+  mulT r r = M3.one ∧ mulT (transpose r) (transpose r) = M3.one ∧ det3 r = 1
+
+section field
+variable {K : Type} [Add K] [Sub K] [Mul K] [Div K] [Neg K] [OfNat K 0] [OfNat K 1] [OfNat K 2]
+
+/-! ### Model: centroid, rmsd -/
+
+/-- `centroid`: component sums and the running count `num`; `none` is the ZeroDivisionError of an empty list.
+    (`num` is a Python int; counting in `K` is exact for every list that fits in memory.) -/
+def centroid (isZero : K → Bool) (pts : List (P3 K)) : Option (P3 K) :=
+  let r := pts.foldl (fun (a : P3 K × K) p => (⟨a.1.x + p.x, a.1.y + p.y, a.1.z + p.z⟩, a.2 + 1)) ((⟨0, 0, 0⟩ : P3 K), (0 : K))
+  if isZero r.2 then none else some ⟨r.1.x / r.2, r.1.y / r.2, r.1.z / r.2⟩
+
+/-- `len(v)` as a number of type `K` -/
+def lenK {α : Type} (l : List α) : K := l.foldl (fun n _ => n + 1) 0
+
+/-- `rmsd(vect1, vect2)` = `sqrt(Σ_zip … / len(vect1))`; `none` is the IndexError of `vect1[0]` on an empty list -/
+def rmsd (sqrt : K → K) (v w : List (P3 K)) : Option K :=
+  match v with
+  | [] => none
+  | _ => some (sqrt (ssd (v.zip w) / lenK v))
+
+/-! ### Model: `jacobi` (quatfit.py:79-153)
+
+  `matrix` and `eigenvect` are 4×4 nested lists, `eigenval` a list of 4; here functions of the indices with point
+  updates. Only the strict upper triangle of `matrix` is read after the initial copy of the diagonal. -/
+
+/-- wrapped in structures so that compiled code evaluates an updated value once, at the update -/
+structure Mat (K : Type) where
+  f : Nat → Nat → K
+
+structure Vec (K : Type) where
+  f : Nat → K
+
+instance : CoeFun (Mat K) (fun _ => Nat → Nat → K) := ⟨Mat.f⟩
+instance : CoeFun (Vec K) (fun _ => Nat → K) := ⟨Vec.f⟩
+
+def upd (m : Mat K) (r c : Nat) (v : K) : Mat K := ⟨fun r' c' => if r' = r ∧ c' = c then v else m r' c'⟩
+def updV (d : Vec K) (i : Nat) (v : K) : Vec K := ⟨fun i' => if i' = i then v else d i'⟩
+
+structure JState (K : Type) where
+  a : Mat K
+  v : Mat K
+  d : Vec K
+
+/-- the body of `if fabs(b) > 0.0:` after `c` and `s` are known (quatfit.py:118-137) -/
+def jacobiRot (i j : Nat) (c s b : K) (st : JState K) : JState K :=
+  let a := upd st.a i j 0
+  let a := (List.range i).foldl (fun a k =>
+    let atemp := c * a k i - s * a k j
+    let a := upd a k j (s * a k i + c * a k j)
+    upd a k i atemp) a
+  let a := (List.range' (i + 1) (j - (i + 1))).foldl (fun a k =>
+    let atemp := c * a i k - s * a k j
+    let a := upd a k j (s * a i k + c * a k j)
+    upd a i k atemp) a
+  let a := (List.range' (j + 1) (4 - (j + 1))).foldl (fun a k =>
+    let atemp := c * a i k - s * a j k
+    let a := upd a j k (s * a i k + c * a j k)
+    upd a i k atemp) a
+  let v := (List.range 4).foldl (fun v k =>
+    let vtemp := c * v k i - s * v k j
+    let v := upd v k j (s * v k i + c * v k j)
+    upd v k i vtemp) st.v
+  let dtemp := c * c * st.d i + s * s * st.d j - 2 * c * s * b
+  let d := updV st.d j (s * s * st.d i + c * c * st.d j + 2 * c * s * b)
+  let d := updV d i dtemp
+  { a := a, v := v, d := d }
+
+/-- what `jacobi` needs beyond ring operations -/
+structure JOps (K : Type) where
+  abs : K → K
+  sqrt : K → K
+  lt : K → K → Bool
+  le : K → K → Bool
+  isZero : K → Bool
+  half : K
+  eps : K
+
+/-- one `(i, j)` step of a sweep (quatfit.py:106-137): choose the rotation, then apply it -/
+def rotIf (ops : JOps K) (i j : Nat) (st : JState K) : JState K :=
+  let b := st.a i j
+  if ops.lt 0 (ops.abs b) then
+    let dma := st.d j - st.d i
+    let t :=
+      if ops.le (ops.abs dma + ops.abs b) (ops.abs dma) then b / dma
+      else
+        let q := ops.half * dma / b
+        let t := 1 / (ops.abs q + ops.sqrt (1 + q * q))
+        if ops.lt q 0 then -t else t
+    let c := 1 / ops.sqrt (t * t + 1)
+    let s := t * c
+    jacobiRot i j c s b st
+  else st
+
+/-- `for j in range(1, 4): for i in range(j): …` -/
+def sweep (ops : JOps K) (st : JState K) : JState K :=
+  (List.range' 1 3).foldl (fun st j => (List.range j).foldl (fun st i => rotIf ops i j st) st) st
+
+/-- `dnorm`, `onorm` of the convergence test, accumulated in the code's order -/
+def norms (ops : JOps K) (st : JState K) : K × K :=
+  (List.range 4).foldl (fun (acc : K × K) j =>
+    let dn := acc.1 + ops.abs (st.d j)
+    let on := (List.range j).foldl (fun on i => on + ops.abs (st.a i j)) acc.2
+    (dn, on)) ((0 : K), (0 : K))
+
+/-- `for m in range(maxsweeps)` with the `break`; `none` is the ZeroDivisionError of `onorm / dnorm` -/
+def jacobiLoop (ops : JOps K) : Nat → JState K → Option (JState K)
+  | 0, st => some st
+  | fuel + 1, st =>
+    let n := norms ops st
+    if ops.isZero n.1 then none
+    else if ops.le (n.2 / n.1) ops.eps then some st
+    else jacobiLoop ops fuel (sweep ops st)
+
+/-- the selection sort of the eigenvalues with the column swaps of `eigenvect` (quatfit.py:139-152) -/
+def sortEig (ops : JOps K) (st : JState K) : JState K :=
+  (List.range 3).foldl (fun st j =>
+    let kd := (List.range' (j + 1) (4 - (j + 1))).foldl (fun (kd : Nat × K) i =>
+      if ops.lt (st.d i) kd.2 then (i, st.d i) else kd) (j, st.d j)
+    let k := kd.1
+    let dtemp := kd.2
+    if k > j then
+      let d := updV st.d k (st.d j)
+      let d := updV d j dtemp
+      let v := (List.range 4).foldl (fun v i =>
+        let t := v i k
+        let v := upd v i k (v i j)
+        upd v i j t) st.v
+      { st with d := d, v := v }
+    else st) st
+
+def matOfS4 (n : S4 K) : Mat K := ⟨fun r c =>
+  match r, c with
+  | 0, 0 => n.n00 | 0, 1 => n.n01 | 0, 2 => n.n02 | 0, 3 => n.n03
+  | 1, 1 => n.n11 | 1, 2 => n.n12 | 1, 3 => n.n13
+  | 2, 2 => n.n22 | 2, 3 => n.n23
+  | 3, 3 => n.n33
+  | _, _ => 0⟩
+
+/-- `jacobi(matrix, maxsweeps)`: eigenvectors (columns), eigenvalues (ascending) -/
+def jacobi (ops : JOps K) (n : S4 K) (maxsweeps : Nat) : Option (JState K) :=
+  let a := matOfS4 n
+  let st : JState K := { a := a, v := ⟨fun r c => if r = c then 1 else 0⟩, d := ⟨fun j => a j j⟩ }
+  (jacobiLoop ops maxsweeps st).map (sortEig ops)
+
+/-- `qtrfit`: quaternion = last column of the sorted eigenvectors, rotation = `transpose(q2mat(q))` -/
+def qtrfit (ops : JOps K) (src tgt : List (P3 K)) (maxsweeps : Nat) : Option (Q4 K × M3 K) :=
+  match qform src tgt with
+  | none => none
+  | some n =>
+    match jacobi ops n maxsweeps with
+    | none => none
+    | some st =>
+      let q : Q4 K := ⟨st.v 0 3, st.v 1 3, st.v 2 3, st.v 3 3⟩
+      some (q, transpose (q2mat q))
+
+/-! ### Model: `fit_fragment`
+
+  Both versions take the rotation finder as a parameter (`fit p q` = the matrix `U` that `qtrfit(p, q, 30)` returns),
+  so that the placement theorems hold for whatever `qtrfit` returns and the driver plugs in the Jacobi model. -/
+
+/-- `fit_fragment` as repaired: the fragment is centred on the source centroid before it is rotated, and the
+    reported value is the deviation of the rotated source atoms from the targets. -/
+def fitFragment (isZero : K → Bool) (sqrt : K → K) (fit : List (P3 K) → List (P3 K) → Option (M3 K))
+    (frag src tgt : List (P3 K)) : Option (List (P3 K) × K) :=
+  match centroid isZero src, centroid isZero tgt with
+  | some pc, some qc =>
+    let p := minusVect src pc
+    let q := minusVect tgt qc
+    match fit p q with
+    | none => none
+    | some u =>
+      let rotated := plusVect (rotmol (minusVect frag pc) u) qc
+      match rmsd sqrt q (rotmol p u) with
+      | none => none
+      | some rms => some (rotated, rms)
+  | _, _ => none
+
+/-- `fit_fragment` as found (snapshot b553572): rotates the uncentred fragment, reports `rmsd(q_target, p_source)`
+    of the centred but unrotated sets. -/
+def fitFragmentOld (isZero : K → Bool) (sqrt : K → K) (fit : List (P3 K) → List (P3 K) → Option (M3 K))
+    (frag src tgt : List (P3 K)) : Option (List (P3 K) × K) :=
+  match centroid isZero src, centroid isZero tgt with
+  | some pc, some qc =>
+    let p := minusVect src pc
+    let q := minusVect tgt qc
+    match fit p q with
+    | none => none
+    | some u =>
+      let rotated := plusVect (rotmol frag u) qc
+      match rmsd sqrt q p with
+      | none => none
+      | some rms => some (rotated, rms)
+  | _, _ => none
+
+/-! ### Specification: placement, certificate -/
+
+/-- where a rigidly placed atom has to be: `R·(p − p̄) + t̄` -/
+def placeSpec (r : M3 K) (pc qc : P3 K) (p : P3 K) : P3 K :=
+  let m := mulVec r ⟨p.x - pc.x, p.y - pc.y, p.z - pc.z⟩
+  ⟨m.x + qc.x, m.y + qc.y, m.z + qc.z⟩
+
+/-- pivots of the LDLᵀ elimination (no pivoting) of `μ·1 − N`. All four positive ⇔ `μ·1 − N` is positive
+    definite ⇔ `μ` exceeds every eigenvalue of `N` (Sylvester's criterion). -/
+def pivots (n : S4 K) (mu : K) : List K :=
+  let a00 := mu - n.n00
+  let a01 := -n.n01
+  let a02 := -n.n02
+  let a03 := -n.n03
+  let a11 := mu - n.n11
+  let a12 := -n.n12
+  let a13 := -n.n13
+  let a22 := mu - n.n22
+  let a23 := -n.n23
+  let a33 := mu - n.n33
+  let d0 := a00
+  let l10 := a01 / d0
+  let l20 := a02 / d0
+  let l30 := a03 / d0
+  let b11 := a11 - l10 * a01
+  let b12 := a12 - l10 * a02
+  let b13 := a13 - l10 * a03
+  let b22 := a22 - l20 * a02
+  let b23 := a23 - l20 * a03
+  let b33 := a33 - l30 * a03
+  let d1 := b11
+  let m21 := b12 / d1
+  let m31 := b13 / d1
+  let c22 := b22 - m21 * b12
+  let c23 := b23 - m21 * b13
+  let c33 := b33 - m31 * b13
+  let d2 := c22
+  let k32 := c23 / d2
+  let d3 := c33 - k32 * c23
+  [d0, d1, d2, d3]
+
+end field
 
 end Shelx.C20
